@@ -121,7 +121,7 @@ ImplEff(im, a) ==
 
 (* lock-step abstract state: objects whose value the contract leaves open follow the implementation *)
 Sync(e, im) ==
-  [vs |-> [i \in 1..NV |-> IF <<"v", i>> \in e.free THEN AbsV(im[i]) ELSE e.vs[i]], bs |-> e.bs]
+  [vs |-> [i \in 1..NV |-> IF <<"v", i>> \in e.free THEN AbsV(im[i]) ELSE e.vs[i]], bs |-> e.bs, da |-> e.da]
 
 IInit ==
   /\ Init
